@@ -10,6 +10,7 @@ import (
 
 	"github.com/gofiber/fiber/v3/binder"
 	"github.com/gofiber/utils/v2"
+	"github.com/tinylib/msgp/msgp"
 	"github.com/valyala/bytebufferpool"
 )
 
@@ -296,12 +297,29 @@ func (r *Redirect) Back(fallback ...string) error {
 // parseAndClearFlashMessages is a method to get flash messages before they are getting removed
 func (r *Redirect) parseAndClearFlashMessages() {
 	// parse flash messages
-	cookieValue := r.c.Cookies(FlashCookieName)
+	cookieValue := r.c.app.getBytes(r.c.Cookies(FlashCookieName))
 
-	_, err := r.c.flashMessages.UnmarshalMsg(r.c.app.getBytes(cookieValue))
-	if err != nil {
+	r.c.flashMessages = r.c.flashMessages[:0]
+
+	// every message takes at least one byte, so a header that announces
+	// more messages than there are bytes left is malformed
+	size, rest, err := msgp.ReadArrayHeaderBytes(cookieValue)
+	if err != nil || int64(size) > int64(len(rest)) {
 		return
 	}
+
+	for i := uint32(0); i < size; i++ {
+		// decode into a fresh message, fields missing in the cookie stay zero
+		var msg redirectionMsg
+		if rest, err = msg.UnmarshalMsg(rest); err != nil {
+			r.c.flashMessages = r.c.flashMessages[:0]
+			return
+		}
+		r.c.flashMessages = append(r.c.flashMessages, msg)
+	}
+
+	// the messages are consumed, expire the cookie on the client
+	r.c.ClearCookie(FlashCookieName)
 }
 
 // processFlashMessages is a helper function to process flash messages and old input data
